@@ -104,8 +104,8 @@ inductive DagFrame (P : Program) (s : St) : Frame → DagRef → Prop
 and then, if that node is ready after all, somebody is still going to notify the condition (no lost wake-up) -/
 def LaunchSt (P : Program) (s : St) (tk : Task) : Frame → Prop
   | .dagInit _ => ∃ rv, tk.st = .runnable rv
-  | .dagLaunch d (m :: _) =>
-      (∃ rv, tk.st = .runnable rv) ∨ (tk.st = .blocked (.cond (.node m)) ∧ (ready P s d m = true → OwnerM P s m))
+  | .dagLaunch d (m :: _) => d.isRec = false ∧
+      ((∃ rv, tk.st = .runnable rv) ∨ (tk.st = .blocked (.cond (.node m)) ∧ (ready P s d m = true → OwnerM P s m)))
   | .dagWaitDest d => (∃ rv, tk.st = .runnable rv) ∨ tk.st = .blocked (.cond d.destKey)
   | _ => False
 
@@ -254,7 +254,7 @@ theorem launcher_facts {P : Program} {depth : Node → Nat} {s : St} {tk : Task}
     obtain ⟨hF, hb⟩ := hf
     subst hF
     cases hdf with
-    | launch _ _ _ h1 h2 h3 => exact ⟨hdag, h1, h2, h3, hst, Or.inl hb.symm⟩
+    | launch _ _ _ h1 h2 h3 => exact ⟨hdag, h1, h2, h3, hst.2, Or.inl hb.symm⟩
   | mainDone hn hfr hst hres => rw [hfr] at hf; simp at hf
   | nodeStart d0 q hn hns hfr hst => rw [hfr] at hf; simp at hf
   | nodeWait d0 q hn hns hfr hst hproc => rw [hfr] at hf; simp at hf
@@ -267,7 +267,7 @@ theorem launcher_facts {P : Program} {depth : Node → Nat} {s : St} {tk : Task}
     obtain ⟨hF, hb⟩ := hf
     subst hF
     cases hdf with
-    | launch _ _ _ h1 h2 h3 => exact ⟨hsub.dag, h1, h2, h3, hst, Or.inr ⟨d0, S0, hb.symm, hsS, hn, hsub⟩⟩
+    | launch _ _ _ h1 h2 h3 => exact ⟨hsub.dag, h1, h2, h3, hst.2, Or.inr ⟨d0, S0, hb.symm, hsS, hn, hsub⟩⟩
   | swRet d0 S0 hn hsS hfr hst hsw => rw [hfr] at hf; simp at hf
   | swDone S0 r0 hn hsS hfr hst hnc hok => rw [hfr] at hf; simp at hf
 
